@@ -290,17 +290,18 @@ def r5_helpers(ctx):
                 bool(bound_by(f.node, f'next({NET}.predecessors({DST}))')) and bound_by(f.node, f'next({NET}.predecessors({DST}))')[0][0] == dn
             edge = find(f'if {po}[0].el_list[0] != {sr[0]} or {po}[-1].el_list[-1] != {dr[0]}:\n    return None', f.node)
             ok = ok and len(edge) == 1
-            first = [b for n in f.node.body for b in [mstmt(f'V_o0 = {po}[0]', n)] if b]
+            first = [b for n in walk_no_nested(f.node) for b in [mstmt(f'V_o0 = {po}[0]', n)] if b]
             ok = ok and len(first) == 1
             if ok:
                 o0 = first[0]['V_o0']
-                pth = [b for n in f.node.body for b in [mstmt(f'V_p = [{SRC}] + {o0}.el_list', n)] if b]
-                lp = [b for n in f.node.body if isinstance(n, ast.For) for b in [mstmt(
+                pth = [b for n in walk_no_nested(f.node) for b in [mstmt(f'V_p = [{SRC}] + {o0}.el_list', n)] if b]
+                lp = [b for n in walk_no_nested(f.node) if isinstance(n, ast.For) for b in [mstmt(
                     f'for V_o in {po}[1:]:\n    if not is_adjacent({o0}, V_o):\n        return None\n    {o0} = V_o\n    V_p.extend(V_o.el_list)', n)] if b]
                 ok = len(pth) == 1 and len(lp) == 1 and lp[0]['V_p'] == pth[0]['V_p'] and \
-                    any(mstmt(f"{pth[0]['V_p']}.append({DST})", n) is not None for n in f.node.body)
-                rets = [n for n in f.node.body if isinstance(n, ast.Return)]
-                ok = ok and bool(rets) and ast.unparse(rets[-1].value) in (f"unique_ordered({pth[0]['V_p']})", pth[0]['V_p']) if ok else False
+                    any(mstmt(f"{pth[0]['V_p']}.append({DST})", n) is not None for n in walk_no_nested(f.node))
+                rets = [n for n in walk_no_nested(f.node) if isinstance(n, ast.Return) and
+                        not (isinstance(n.value, ast.Constant) and n.value.value is None) and n.value is not None]
+                ok = ok and len(rets) == 1 and ast.unparse(rets[-1].value) in (f"unique_ordered({pth[0]['V_p']})", pth[0]['V_p']) if ok else False
     nones = [n for n in walk_no_nested(f.node) if isinstance(n, ast.Return) and isinstance(n.value, ast.Constant) and n.value.value is None]
     ctx.check('R5.helpers', site(f), bool(ok) and len(nones) >= 4, key(f, 'explicit'),
               'explicit_path accepts an include list whose OMS do not start at the source ROADM, end at the destination ROADM or '
